@@ -316,13 +316,15 @@ def inheritsLess (a b : Node) : Bool := b.inherits.contains a.name
     first, then what they inherit, without duplicates — how slip flattens. -/
 def addUnique (acc : List String) (x : String) : List String := if acc.contains x then acc else acc ++ [x]
 
+/-- one component `d` of a new definition: `d` itself, then everything `d` inherits -/
+def inhStep (done : List Node) (acc : List String) (d : String) : List String :=
+  match done.find? (·.name == d) with
+  | some n => n.inherits.foldl addUnique (addUnique acc d)
+  | none => acc
+
 def closeHistory : List (String × List String) → List Node → List Node
   | [], done => done
   | (name, direct) :: rest, done =>
-    let inh := direct.foldl (fun acc d =>
-      match done.find? (·.name == d) with
-      | some n => n.inherits.foldl addUnique (addUnique acc d)
-      | none => acc) []
-    closeHistory rest (done ++ [{ name := name, inherits := inh }])
+    closeHistory rest (done ++ [{ name := name, inherits := direct.foldl (inhStep done) [] }])
 
 end SlipVerif.LoadForm
